@@ -450,6 +450,18 @@ pub enum VariantNamedLikeField {
 }
 proj_enum!(VariantNamedLikeField { Text { text }, Image { url, image }, Span { from_to, plain }, Other });
 
+/// identifiers with leading, trailing and doubled underscores under `lowercase` (nothing but the case changes)
+#[derive(Deserr, Debug)]
+#[deserr(rename_all = lowercase, deny_unknown_fields)]
+pub struct LowerUnderscores {
+    _geo: u8,
+    type_: bool,
+    a__b: Option<u8>,
+    _Vectors_: String,
+    plain_one: u8,
+}
+proj_struct!(LowerUnderscores { _geo, type_, a__b, _Vectors_, plain_one });
+
 /// raw identifiers as variant names: without any rename, under rename_all, with an explicit rename
 #[derive(Deserr, Debug)]
 #[deserr(tag = "t")]
@@ -1194,6 +1206,10 @@ pub fn defs() -> Defs {
     d.add(Def::Conv(ConvDef { name: "CTrySame".into(), inter: Ty::Str, conv: Conv::TryFrom("try_same_err".into()), validate: None }));
     d.add(st(sdef("PortInner", vec![f("port", Ty::Str).try_from("try_port")])));
     d.add(st(sdef("PortS", vec![f("port", Ty::Str).try_from("try_port"), f("name", Ty::Str), f("backups", vec(named("PortInner"))).default(Proj::Seq(vec![]))])));
+    d.add(st(StructDef {
+        deny: Deny::Default,
+        ..sdef("LowerUnderscores", vec![f("_geo", u(8)), f("type_", Ty::Bool), f("a__b", opt(u(8))), f("_Vectors_", Ty::Str).key("_vectors_"), f("plain_one", u(8))])
+    }));
     d.add(Def::Enum(EnumDef {
         deny: Deny::Default,
         ..edef(
@@ -1546,6 +1562,7 @@ pub fn registry() -> Registry {
     r.all::<BTreeMap<String, ()>>("BTreeMap<String,()>", map(KeyTy::Str, Ty::Unit), CT);
     r.all::<Vec<PhantomData<u8>>>("Vec<PhantomData<u8>>", vec(Ty::Phantom), CT);
     r.all::<Option<Option<()>>>("Option<Option<()>>", opt(opt(Ty::Unit)), CT);
+    r.all::<LowerUnderscores>("LowerUnderscores", named("LowerUnderscores"), &["derive", "rename", "deny"]);
     r.all::<VariantNamedLikeField>("VariantNamedLikeField", named("VariantNamedLikeField"), &["derive", "enum", "rename", "deny", "default"]);
     r.all::<VariantRuleMix>("VariantRuleMix", named("VariantRuleMix"), &["derive", "enum", "rename"]);
     r.all::<DupNames>("DupNames", named("DupNames"), &["derive", "unit-enum", "rename"]);
